@@ -29,6 +29,34 @@ func analyseExistsLoop(c *Ctx, fn *ssa.Function) *existsShape {
 			nh++
 		}
 	}
+	if nh == 0 {
+		// the standard library's own exists-loop: return slices.Contains(list, param)
+		var found *ssa.Call
+		nCalls := 0
+		allInstrs(fn, func(in ssa.Instruction) {
+			if call, ok := in.(*ssa.Call); ok {
+				nCalls++
+				if o := CalleeObj(call); o != nil && o.Pkg() != nil && o.Pkg().Path() == "slices" && o.Name() == "Contains" && len(call.Call.Args) == 2 {
+					if _, isP := stripConv(call.Call.Args[1]).(*ssa.Parameter); isP {
+						found = call
+					}
+				}
+			}
+		})
+		if found != nil && nCalls == 1 {
+			returned := false
+			allInstrs(fn, func(in ssa.Instruction) {
+				if ret, ok := in.(*ssa.Return); ok && len(ret.Results) == 1 && ret.Results[0] == ssa.Value(found) {
+					returned = true
+				}
+			})
+			if returned && len(fn.Blocks) == 1 {
+				sh.Kind = "eq(elem,param)"
+				sh.Pos = found.Pos()
+				return sh
+			}
+		}
+	}
 	if nh != 1 {
 		sh.Problems = append(sh.Problems, fmt.Sprintf("%d range loops (exactly one expected)", nh))
 		return sh
